@@ -37,13 +37,14 @@ type hOp struct {
 }
 
 type hScenario struct {
-	NumVb  int    `json:"numvb"`
-	Lo     int    `json:"lo"`
-	Hi     int    `json:"hi"`
-	Ops    []hOp  `json:"ops"`
-	Finite bool   `json:"finite,omitempty"`
-	Reset  string `json:"reset,omitempty"` // checkpoint.autoReset
-	File   bool   `json:"file,omitempty"`  // real file metadata backend (whole-state writes) instead of the per-vBucket fake
+	NumVb      int    `json:"numvb"`
+	Lo         int    `json:"lo"`
+	Hi         int    `json:"hi"`
+	Ops        []hOp  `json:"ops"`
+	Finite     bool   `json:"finite,omitempty"`
+	Reset      string `json:"reset,omitempty"`        // checkpoint.autoReset
+	EndOnClose bool   `json:"end_on_close,omitempty"` // the server confirms every CloseStream with STREAM_END(closed), as a real node does
+	File       bool   `json:"file,omitempty"`         // real file metadata backend (whole-state writes) instead of the per-vBucket fake
 }
 
 // ---------- server model (survives restarts) ----------
@@ -179,6 +180,7 @@ func newSession(sc *hScenario, oracles ...string) *session {
 		s.cfg.Checkpoint.AutoReset = sc.Reset
 	}
 	s.cl = newFakeClient(sc.NumVb)
+	s.cl.endOnClose = sc.EndOnClose
 	s.meta = newFakeMeta()
 	for v := 0; v < sc.NumVb; v++ {
 		s.srv[uint16(v)] = &srvVb{}
